@@ -9,6 +9,8 @@ var checks = map[string]checkDef{
 	"C05": {Harness: "c05", Instrument: true},
 	"C08": {Harness: "c08", Instrument: true},
 	"C10": {Harness: "c10", Instrument: true},
+	"C03": {Harness: "c03", Instrument: true},
+	"C04": {Harness: "c03", Instrument: true},
 	"C15": {Harness: "c15", Instrument: true},
 	"C16": {Harness: "c16", Instrument: true},
 	"C14": {Harness: "c14"},
